@@ -63,5 +63,16 @@ def queries(tier, seed, build):
             q.str_bound = hi + 70
             q.replay_kind = "gensalt"
             q.replay_prefix = prefix
+            if name == "sha1crypt" and place == "mono":
+                # the two-run query would have to prove two symbolic 64-bit remainders equal:
+                # fix the count (default, and one seeded value); other counts are in the
+                # one-run queries above
+                for tag, c in (("c0", 0), ("cs", 1000 + seed % 9000)):
+                    import copy
+                    q2 = copy.copy(q)
+                    q2.name = q.name + "-" + tag
+                    q2.defs = list(q.defs) + ["COUNT_FIXED=%d" % c]
+                    qs.append(q2)
+                continue
             qs.append(q)
     return qs
